@@ -535,6 +535,9 @@ pub fn goldens(bs: &mut Base) -> Vec<Golden> {
     }
     push("set_reward_emissions", b::SetRewardEmissions { whirlpool: pa.key, reward_authority: pa.reward_authority, reward_vault: pa.rewards[0].1 }.ix(0, 5u128 << 64), setting("reward_authority", Some(cb.reward_emissions_super_authority)), Some(bs.p_a));
     push("set_reward_emissions_v2", b::SetRewardEmissionsV2 { whirlpool: pa.key, reward_authority: pa.reward_authority, reward_vault: pa.rewards[1].1 }.ix(1, 7u128 << 64), setting("reward_authority", Some(cb.reward_emissions_super_authority)), Some(bs.p_a));
+    // the same two with the other reward: reward 1 pays one of the pool's own tokens, so the pool's vault of that token is a same-mint, pool-owned substitute
+    push("set_reward_emissions", b::SetRewardEmissions { whirlpool: pa.key, reward_authority: pa.reward_authority, reward_vault: pa.rewards[1].1 }.ix(1, 6u128 << 64), setting("reward_authority", Some(cb.reward_emissions_super_authority)), Some(bs.p_a));
+    push("set_reward_emissions_v2", b::SetRewardEmissionsV2 { whirlpool: pa.key, reward_authority: pa.reward_authority, reward_vault: pa.rewards[0].1 }.ix(0, 8u128 << 64), setting("reward_authority", Some(cb.reward_emissions_super_authority)), Some(bs.p_a));
     let ix = w.collect_protocol_fees_ix(bs.p_a, bs.other, false);
     push("collect_protocol_fees", ix, setting("collect_protocol_fees_authority", Some(cb.collect_protocol_fees_authority)), Some(bs.p_a));
     let ix = w.collect_protocol_fees_ix(bs.p_t, bs.other, true);
